@@ -1,12 +1,14 @@
 package ip
 
 import (
+	"fmt"
 	"net"
+	"net/netip"
 	"testing"
 )
 
 // FuzzVerifC14Gateway: the oracle of TestVerifC14Gateway under Go's coverage-guided
-// fuzzer (not part of the registered check).
+// fuzzer (thorough tier).
 func FuzzVerifC14Gateway(f *testing.F) {
 	f.Add(false, []byte{192, 168, 1, 77}, uint8(24), int64(-3))
 	f.Add(true, []byte{0xfd, 0, 0, 0, 0, 0, 0, 0, 0, 0, 0, 0, 0, 0, 0, 9}, uint8(126), int64(2))
@@ -22,6 +24,12 @@ func FuzzVerifC14Gateway(f *testing.F) {
 		mask := net.CIDRMask(p, n*8)
 		ipn := net.IPNet{IP: net.IP(a).Mask(mask), Mask: mask}
 		cidr := (&net.IPNet{IP: net.IP(a), Mask: mask}).String()
+		if mappedV6(net.IP(a)) {
+			// net.IP.String() prints a 16-byte IPv4-mapped address as IPv4; write it as IPv6
+			var b [16]byte
+			copy(b[:], a)
+			cidr = fmt.Sprintf("%s/%d", netip.AddrFrom16(b).String(), p)
+		}
 
 		got, want := DeriveGatewayIP(cidr), refAtIndex(a, p, -3)
 		switch {
